@@ -32,6 +32,10 @@ def make(i):
         ("arr-int64", lambda: np.array([1, -2], dtype=np.int64)), ("arr-float32", lambda: np.array([1.5, np.nan], dtype=np.float32)),
         ("arr-float64", lambda: np.array([1.5, np.inf], dtype=np.float64)), ("arr-empty", lambda: np.array([], dtype=np.float64)),
         ("arr-2d", lambda: np.arange(6, dtype=np.int64).reshape(2, 3)),
+        ("arr-0d", lambda: np.array(5, dtype=np.int64)), ("arr-0d-float", lambda: np.array(2.5, dtype=np.float64)),
+        ("arr-3d", lambda: np.arange(24, dtype=np.int32).reshape(2, 3, 4)), ("arr-transposed", lambda: np.arange(6, dtype=np.int64).reshape(2, 3).T),
+        ("arr-strided", lambda: np.arange(10, dtype=np.int16)[::2]), ("arr-fortran", lambda: np.asfortranarray(np.arange(6, dtype=np.float32).reshape(2, 3))),
+        ("arr-1x0", lambda: np.zeros((1, 0), dtype=np.int8)),
         ("index", lambda: pd.Index([3, 1, 2])), ("series", lambda: pd.Series([1.0, 2.0], index=["x", "y"], name="s")),
         ("series-empty", lambda: pd.Series([], dtype="float64")),
         ("frame", lambda: pd.DataFrame({"a": [1, 2], "b": ["x", None]})), ("frame-empty", lambda: pd.DataFrame()),
@@ -41,7 +45,7 @@ def make(i):
     return table[i][0], table[i][1]()
 
 
-NVALUES = 37
+NVALUES = 44
 
 
 @memento_function(cluster="cv", version="1")
